@@ -1,6 +1,8 @@
 import StorageModel.Driver.Common
 import StorageModel.C15.Spec
 import StorageModel.C15.Config
+import StorageModel.C15.Cursor
+import StorageModel.C15.Order
 /- model driver for C15: `run spec` reads case lines on stdin and prints one output line per case
    (spec = false: the engine model's output; spec = true: the spec's verdict).
 
@@ -10,7 +12,19 @@ import StorageModel.C15.Config
           d/<s>/<id>                                   delete
      roles = - | r.r.r     child = n (nil) | <value>     ids 0..4 (0 = ""), values 0..4 (0 = "")
    output line: one segment per transaction, joined by " ;; ":
-     <results> commit|abort E <events delivered> F <FindById…> Q <QueryIds…> I <Iterate…> X <index reads…> D <bucket dump>           -/
+     <results> commit|abort E <events delivered> F <FindById…> Q <QueryIds…> I <Iterate…> X <index reads…> D <bucket dump>
+
+   case line:   g <history>             as h, with the child stores registered in the order A2, A1
+
+   case line:   k <history> <item>;<item>;…      the history, then in one read transaction
+     item: <s>/i/<filter>/<steps>     IterateIds(filter) through store s, driven by the script
+           <s>/v/<filter>/<steps>     IterateValidIds(filter)
+              steps = - | step.step.…   step = n (Next) | s<k> (Seek to id k; ids 1..8, 0 = before all, 9 = after all)
+              observation: Current() (or - when invalid) after opening and after every step
+           <s>/q/<filter>/<u|s>/<provider>   QueryWithCursorC (u: no sort, s: sort by name) over
+              provider = l<id.id.…> (these ids, those that exist, in this order) | x<r> (the roles index cursor of role r)
+     filter = t | n1 | r1
+   output line: the history's segments, then a last segment  K <item>=<observation> …           -/
 namespace StorageModel.Driver.C15
 open StorageModel.Driver StorageModel.C15
 
@@ -166,39 +180,134 @@ def evS (e : Ev) : String :=
 
 /-- run the operations of one transaction, collecting the per-operation results and the events
     queued for delivery at commit -/
-def runOps {σ : Type} (f : σ → Op → Except Err σ) (view : σ → St) (st : σ) :
+def runOps {σ : Type} (f : σ → Op → Except Err σ) (view : σ → St) (st : σ) (evf : St → Op → List Ev) :
     List Op → List String → List Ev → (Option σ × List String × List Ev)
   | [], acc, evs => (some st, acc.reverse, evs)
   | op :: rest, acc, evs =>
     match f st op with
-    | .ok st' => runOps f view st' rest ("ok" :: acc) (evs ++ eventsOf (view st) op)
+    | .ok st' => runOps f view st' evf rest ("ok" :: acc) (evs ++ evf (view st) op)
     | .error e => (none, (errStr e :: acc).reverse, [])
 
-def runHist {σ : Type} (f : σ → Op → Except Err σ) (view : σ → St) (st : σ) :
+def runHist {σ : Type} (f : σ → Op → Except Err σ) (view : σ → St) (st : σ) (evf : St → Op → List Ev) :
     List (List Op) → List String → List String
   | [], acc => acc.reverse
   | tx :: rest, acc =>
-    let (r, res, evs) := runOps f view st tx [] []
+    let (r, res, evs) := runOps f view st evf tx [] []
     let st' := r.getD st
     let evText := if evs.isEmpty then "-" else ",".intercalate (evs.map evS)
     let seg := ",".intercalate res ++ (if r.isSome then " commit " else " abort ") ++ "E " ++ evText ++ " " ++
       observe (view st')
-    runHist f view st' rest (seg :: acc)
+    runHist f view st' evf rest (seg :: acc)
+
+/-! cursor scripts and provider queries (`k` lines) -/
+
+inductive Prov
+  | list (l : List Nat)
+  | roles (r : Nat)
+
+inductive Item
+  | cur (s : Sel) (validOnly : Bool) (f : Filter) (steps : List Step)
+  | qry (s : Sel) (f : Filter) (sorted : Bool) (p : Prov)
+
+def parseFilter : String → Option Filter
+  | "t" => some .tt
+  | "n1" => some (.nameEq 1)
+  | "r1" => some (.hasRole 1)
+  | _ => none
+
+def parseStep (x : String) : Option Step :=
+  match x.toList with
+  | ['n'] => some .next
+  | 's' :: rest => (String.ofList rest).toNat?.map .seek
+  | _ => none
+
+def parseSteps (s : String) : Option (List Step) :=
+  if s == "-" then some [] else (s.splitOn ".").mapM parseStep
+
+def parseProv (x : String) : Option Prov :=
+  match x.toList with
+  | 'l' :: rest => (parseRoles (String.ofList rest)).map .list
+  | 'x' :: rest => (String.ofList rest).toNat?.map .roles
+  | _ => none
+
+def parseItem (x : String) : Option (String × Item) :=
+  match x.splitOn "/" with
+  | [sel, "i", f, steps] => do pure (x, .cur (← parseSel sel) false (← parseFilter f) (← parseSteps steps))
+  | [sel, "v", f, steps] => do pure (x, .cur (← parseSel sel) true (← parseFilter f) (← parseSteps steps))
+  | [sel, "q", f, "u", p] => do pure (x, .qry (← parseSel sel) (← parseFilter f) false (← parseProv p))
+  | [sel, "q", f, "s", p] => do pure (x, .qry (← parseSel sel) (← parseFilter f) true (← parseProv p))
+  | _ => none
+
+def parseItems (s : String) : Option (List (String × Item)) := (s.splitOn ";").mapM parseItem
+
+def traceS (t : List (Option Nat)) : String := ".".intercalate (t.map optId)
+
+/-- the engine model's answer: the cursor state machines of C15/Cursor.lean, the scanners over
+    the provided ids, the maintained roles index -/
+def modelItem (st : St) : Item → String
+  | .cur s false f steps => traceS (IdCur.trace st s f (.plain (iterateIdsCur st s f)) steps)
+  | .cur s true f steps => traceS (IdCur.trace st s f (iterateValidIdsCur st s f) steps)
+  | .qry s f sorted p =>
+    let provided := match p with
+      | .list l => l.filter fun id => (mget st.ents id).isSome
+      | .roles r => rolesIndexIds st r
+    natList (if sorted then queryWithCursorSorted st s f provided else queryWithCursor st s f provided)
+
+def specLe (ents : Ents) (a b : Nat) : Bool :=
+  let na := ((mget ents a).map (·.name)).getD 0
+  let nb := ((mget ents b).map (·.name)).getD 0
+  na < nb || (na == nb && a ≤ b)
+
+/-- the specification's answer, from the entity table alone: a list cursor over the owned ids;
+    the provided ids the store owns (sorted by name, id on request); a role's holders -/
+def specItem (ents : Ents) : Item → String
+  | .cur s validOnly f steps => traceS ((ListCur.start (ownedIds ents s validOnly f)).trace steps)
+  | .qry s f sorted p =>
+    let provided := match p with
+      | .list l => l.filter fun id => (mget ents id).isSome
+      | .roles r => (canon (mkeys ents)).filter fun id =>
+          match mget ents id with
+          | some e => e.roles.contains r
+          | none => false
+    let rows := provided.filter (ownedPred ents s false f)
+    natList (if sorted then rows.mergeSort (specLe ents) else rows)
+
+def itemsOut (f : Item → String) (items : List (String × Item)) : String :=
+  "K " ++ " ".intercalate (items.map fun (src, it) => src ++ "=" ++ f it)
 
 def step (line : String) : String :=
   match splitSp line with
   | ["h", h] =>
     match parseHist h with
-    | some hist => " ;; ".intercalate (runHist (stepOp Config.current) id St.init hist [])
+    | some hist => " ;; ".intercalate (runHist (stepOp Config.current) id St.init eventsOf hist [])
     | none => "bad-case"
+  | ["g", h] =>   -- the same stores with A2 (extended) registered before A1 (C15/Order.lean)
+    match parseHist h with
+    | some hist => " ;; ".intercalate (runHist (stepOpOrd true Config.current) id St.init (eventsOfOrd true) hist [])
+    | none => "bad-case"
+  | ["k", h, its] =>
+    match parseHist h, parseItems its with
+    | some hist, some items =>
+      " ;; ".intercalate (runHist (stepOp Config.current) id St.init eventsOf hist [] ++
+        [itemsOut (modelItem (StorageModel.C15.run Config.current St.init hist)) items])
+    | _, _ => "bad-case"
   | _ => "bad-case"
 
 def specStep (line : String) : String :=
   match splitSp line with
   | ["h", h] =>
     match parseHist h with
-    | some hist => " ;; ".intercalate (runHist specOp derive ([] : Ents) hist [])
+    | some hist => " ;; ".intercalate (runHist specOp derive ([] : Ents) eventsOf hist [])
     | none => "bad-case"
+  | ["g", h] =>   -- the table specification does not know of a registration order; the events are delivered in it
+    match parseHist h with
+    | some hist => " ;; ".intercalate (runHist specOp derive ([] : Ents) (eventsOfOrd true) hist [])
+    | none => "bad-case"
+  | ["k", h, its] =>
+    match parseHist h, parseItems its with
+    | some hist, some items =>
+      " ;; ".intercalate (runHist specOp derive ([] : Ents) eventsOf hist [] ++ [itemsOut (specItem (specRun [] hist)) items])
+    | _, _ => "bad-case"
   | _ => "bad-case"
 
 def run (spec : Bool) : IO Unit := forEachLine (if spec then specStep else step)
